@@ -286,6 +286,22 @@ def budget_for(n: int) -> int:
 # --------------------------------------------------------------------------
 
 PARSERS = ("dex", "axml", "arsc", "apk")
+_APK_SHELL = [None]
+
+
+def _wrap_in_apk(dex_bytes):
+    """a small valid archive (corpus/apk/Test-debug.apk) whose classes.dex is replaced by dex_bytes"""
+    import io as _rio
+    import zipfile
+    if _APK_SHELL[0] is None:
+        from .core import CORPUS_DIR
+        with zipfile.ZipFile(os.path.join(CORPUS_DIR, "apk", "Test-debug.apk")) as z:
+            _APK_SHELL[0] = [(zi, z.read(zi.filename)) for zi in z.infolist()]
+    out = _rio.BytesIO()
+    with zipfile.ZipFile(out, "w") as z:
+        for zi, d in _APK_SHELL[0]:
+            z.writestr(zi, dex_bytes if zi.filename == "classes.dex" else d, compress_type=zi.compress_type)
+    return out.getvalue()
 
 
 REAL_TIME_LIMIT_S = 15.0      # one parse of a <= 64 KB input takes milliseconds
@@ -348,6 +364,15 @@ def parse(kind: str, data: bytes, keep_log=False, budget=None, clock=True, real_
             if kind == "dex":
                 from androguard.core.dex import DEX
                 obj = DEX(data)
+            elif kind == "apk":
+                # (for C09) the DEX is taken out of an APK object: DEX(APK(...)) -- a third way into DEX.__init__
+                if data[:2] != b"PK":
+                    from androguard.core.apk import APK as _APK
+                    from androguard.core.dex import DEX
+                    obj = DEX(_APK(_wrap_in_apk(data), raw=True))
+                else:
+                    from androguard.core.apk import APK
+                    obj = APK(data, raw=True)
             elif kind == "odex":
                 from androguard.core.dex import ODEX
                 obj = ODEX(data)
@@ -357,9 +382,6 @@ def parse(kind: str, data: bytes, keep_log=False, budget=None, clock=True, real_
             elif kind == "arsc":
                 from androguard.core.axml import ARSCParser
                 obj = ARSCParser(data)
-            elif kind == "apk":
-                from androguard.core.apk import APK
-                obj = APK(data, raw=True)
             else:
                 raise HarnessError("unknown parser " + kind)
             outcome = "ok"
